@@ -46,7 +46,10 @@ def digests_for(name, idxs, seed=0, tier='quick'):
         case = prop.make_case(fam, i, rng, tier)
         if case is None:
             continue
-        res = prop.execute(case)
+        if (i + len(fam)) % 3 == 1:
+            case['_debug_log'] = True       # DEBUG logging of lomond on
+        from . import runner
+        res = runner._execute(prop, case)
         out['%s/%d' % (fam, i)] = res.digest
         if len(out) % 100 == 0:
             gc.collect()
